@@ -67,6 +67,9 @@ def _list_ops(region):
         ops.append(("delete", i, None))
         ops.append(("insert", i, ["INS%d" % i]))
         ops.append(("insert", i, ["INS%da" % i, "INS%db" % i]))
+        # an inserted object whose keys look like bookkeeping fields (Kaggle's _cell_guid / _uuid, a key named like a
+        # field of a merge decision): content is content, whatever its keys are called
+        ops.append(("insert", i, [{"_uuid": "u%d" % i, "strategy": "s", "conflict": True, "n": i}]))
     return ops
 
 
@@ -103,7 +106,7 @@ def generic_tasks():
         "c": [("set", [1, 2, 3, 4]), ("set", [2, 3]), ("del", None)],
         "d": [("set", {"k": 2, "m": 2}), ("set", {"m": 2}), ("del", None)],
         "e": [("set", "line1\nline2 changed\nline3\n"), ("set", "line0\nline1\nline2\nline3\n")],
-        "f": [("set", "added")],
+        "f": [("set", "added"), ("set", {"_cell_guid": "g", "_kg_hide-input": True, "strategy": "inline", "plain": [{"_x": 1}]})],
     }
 
     def ap(d, key, op):
